@@ -268,7 +268,7 @@ Section Read.
     | RLen => Ok (ONat (len h))
     end.
 
-  Definition run (h : handle) (ops : list hop) (r : rd) : res out :=
+  Definition run_prog (h : handle) (ops : list hop) (r : rd) : res out :=
     bind (apply_hops h ops) (fun h' => run_rd h' r).
 
 End Read.
@@ -287,4 +287,4 @@ Arguments index_of {D}. Arguments frame_empty {R Name}. Arguments iter_row_group
 Arguments head_loop {D}. Arguments frame_head {R Name}. Arguments head_gen {D R Name}.
 Arguments head {D R Name}. Arguments head_pinned {D R Name}. Arguments count {D Name}. Arguments len {D Name}.
 Arguments pickle {D Name B}. Arguments apply_hop {D Name B}. Arguments apply_hops {D Name B}.
-Arguments run_rd {D R Name}. Arguments run {D R Name B}.
+Arguments run_rd {D R Name}. Arguments run_prog {D R Name B}.
